@@ -170,7 +170,8 @@ def solve_rows_in_lattice(rows, basis):
 def pseudo_average_candidates(a, n):
   """Brute force over all 2^m selections b[i] in {a[i], a[i] + n}.
 
-  Returns (set of admissible results, number of variance-minimising selections).
+  Returns (set of admissible results, number of variance-minimising selections,
+  True when some minimising selection shifts a proper non-empty subset).
   A result is admissible when it is an integer within 1/2 of the mean of some
   variance-minimising selection, reduced modulo n (both roundings of a tie).
   """
@@ -184,16 +185,17 @@ def pseudo_average_candidates(a, n):
     var = m * sum(x * x for x in b) - sb * sb
     if best is None or var < best:
       best = var
-      sums = [sb]
+      sums = [(sb, sum(sel))]
     elif var == best:
-      sums.append(sb)
+      sums.append((sb, sum(sel)))
   out = set()
-  for sb in sums:
+  for sb, _ in sums:
     lo = -((-(2 * sb - m)) // (2 * m))      # ceil((2 sb - m) / 2m) = ceil(mean - 1/2)
     hi = (2 * sb + m) // (2 * m)            # floor(mean + 1/2)
     for r in range(lo, hi + 1):
       out.add(r % n)
-  return out, len(sums)
+  wraps = all(0 < cnt < m for _, cnt in sums)
+  return out, len(sums), wraps
 
 
 # ---------------------------------------------------------------- distributions
@@ -217,7 +219,12 @@ def binomial_cdf_half(k, m):
     return Fraction(0)
   if k >= m:
     return Fraction(1)
-  return Fraction(sum(math.comb(m, i) for i in range(k + 1)), 1 << m)
+  total = 0
+  c = 1                       # C(m, 0)
+  for i in range(k + 1):
+    total += c
+    c = c * (m - i) // (i + 1)
+  return Fraction(total, 1 << m)
 
 
 def mp_igamc(a, x, dps=420):
